@@ -92,6 +92,10 @@ def spec_code(spec):
 # ---------------------------------------------------------------- source builder
 def _block_src(j, name, tp, fault):
     kind = _kind(tp, name)
+    if kind == "e":
+        # a block whose own default body is empty (the overriding definition must still be rendered in its place,
+        # also when the enclosing container has no other visible content)
+        return "{% block " + name + " %}{% endblock %}"
     src = "{% block " + name + (" required" if kind == "r" else "") + " %}"
     # {{ q }} is the loop variable of a {% for q in xs %} wrapper in the root (wrap "f"); undefined otherwise
     src += "[T%d.%s:{{ %s }}{{ q }}" % (j, name, _var(j, name))
@@ -180,6 +184,8 @@ def flatten(spec, s, t, k, n):
             raise _Recursive()
         j, tp = defs[name][idx]
         kind = _kind(tp, name)
+        if kind == "e":
+            return ""
         out = "[T%d.%s:" % (j, name) + vals[_var(j, name)] + qv[0]
         if _has_loop(j, name):
             out += digits
@@ -390,7 +396,7 @@ def with_junk(chain, flag):
 
 
 # curated specs (quick tier): every feature at least once. Root first, leaf last.
-P, S, R, O, LP = "p", "s", "r", "o", "l"
+P, S, R, O, LP, E = "p", "s", "r", "o", "l", "e"
 CURATED = [
     # chain length 1: a template rendered directly
     ((tpl(P, P),), None),
@@ -411,6 +417,11 @@ CURATED = [
     ((tpl(P, P), tpl(LP, S)), None),                # super inside a for loop
     ((tpl(P, P, wrap="f"), tpl(S, P, junk=True)), None),
     ((tpl(P, P, "N", wrap="i"), tpl(O, S, wrap="i")), None),
+    # empty default blocks inside containers that have no other visible content
+    ((tpl(E, O, wrap="i"), tpl(P, O)), None),
+    ((tpl(E, O, wrap="f"), tpl(P, O)), None),
+    ((tpl(E, E, wrap="i"), tpl(S, P)), None),
+    ((tpl(E, O, wrap="i"), tpl(O, O), tpl(P, O)), None),
     # required
     ((tpl(R, P), tpl(P, O)), None),
     ((tpl(R, P), tpl(O, P, junk=True)), None),      # not overridden
